@@ -2,6 +2,10 @@
 #include <curve_extras.h>
 
 #include <inttypes.h>
+#include <verif_sign_hooks.h>
+#ifdef SQISIGN_SQISIGN2D_WEST_AC24_VERIF
+int verif_find_uv_branch(const quat_left_ideal_t *lideal); /* dim2id2iso.c */
+#endif
 
 void
 public_key_init(public_key_t *pk)
@@ -46,8 +50,16 @@ protocols_keygen(public_key_t *pk, secret_key_t *sk)
     // TODO make a clean function for all of that and
     // the ideal to isogeny translation can fail: in that case we start again with another ideal
     do {
+#ifdef SQISIGN_SQISIGN2D_WEST_AC24_VERIF
+        /* steering of find_uv's re-ordering branch: only re-draws the secret ideal */
+        int verif_uv_want = verif_env_int("SQI_VERIF_UV_BRANCH", 0), verif_uv_tries = 0;
+        do {
+#endif
         generate_random_prime(&n, 1, ibz_bitsize(&QUATALG_PINFTY.p));
         sampling_random_ideal_O0(&sk->secret_ideal, &n, 1);
+#ifdef SQISIGN_SQISIGN2D_WEST_AC24_VERIF
+        } while (verif_uv_want && verif_find_uv_branch(&sk->secret_ideal) != verif_uv_want && ++verif_uv_tries < 200000);
+#endif
 
         // ideal to isogeny clapotis
         found = dim2id2iso_arbitrary_isogeny_evaluation(&B_0_two, &sk->curve, &sk->secret_ideal);
